@@ -355,6 +355,21 @@ class Writer(BaseValidator):
         assert self._delegated_writer is not None
 
         is_row_to_validate = self.location.line >= self._header
+        if not is_row_to_validate and self.cid.data_format.format == data.FORMAT_FIXED:
+            # Header rows are not validated but still have to fit into the fixed layout.
+            if len(row_to_write) != len(self._field_names_and_lengths):
+                raise errors.DataError(
+                    "header row must contain %d fields but has %d: %s"
+                    % (len(self._field_names_and_lengths), len(row_to_write), row_to_write),
+                    self.location,
+                )
+            for item, (field_name, field_length) in zip(row_to_write, self._field_names_and_lengths):
+                if not isinstance(item, str) or len(item) > field_length:
+                    raise errors.DataError(
+                        "header for field %s must be text with at most %d characters but is: %s"
+                        % (_compat.text_repr(field_name), field_length, _compat.text_repr(item)),
+                        self.location,
+                    )
         can_be_padded = (
             self.cid.data_format.format == data.FORMAT_FIXED
             and len(row_to_write) == len(self.cid.field_formats)
